@@ -58,7 +58,50 @@ func (e *Exec) nilInt() Value {
 func (e *Exec) rtIntrinsic(name string, fn *ssa.Function, args []Value) (Value, bool) {
 	tb := e.tb
 	str := func(i int) string { return e.mustString(args[i], name) }
+	if strings.HasPrefix(name, "Nondet") && len(args) > 0 {
+		// names are scoped by the current prefix (PushPrefix/PopPrefix)
+		base := str
+		str = func(i int) string {
+			if i == 0 {
+				return e.namePrefix + base(0)
+			}
+			return base(i)
+		}
+	}
 	switch name {
+	case "PushPrefix":
+		e.prefixStack = append(e.prefixStack, e.namePrefix)
+		e.namePrefix += e.mustString(args[0], name)
+		return nil, true
+	case "PopPrefix":
+		if n := len(e.prefixStack); n > 0 {
+			e.namePrefix = e.prefixStack[n-1]
+			e.prefixStack = e.prefixStack[:n-1]
+		}
+		return nil, true
+	case "HonestAttester":
+		i, ok := args[0].(*Term)
+		if !ok || !i.isConst() {
+			e.fail("HonestAttester: index must be concrete")
+		}
+		return e.nondetBytes(fmt.Sprintf("%shonest_att%d", e.namePrefix, i.i64()), 3, false, true), true
+	case "HonestAttestation":
+		t, ok := args[2].(*Term)
+		if !ok || !t.isConst() {
+			e.fail("HonestAttestation: t must be concrete")
+		}
+		n := int(t.i64())
+		s := e.nondetBytes(e.namePrefix+e.mustString(args[0], name), 65*n, false, false)
+		e.addPC(tb.Eq(s.len, tb.BV(int64(65*n), 64)))
+		s.len, s.gocap, s.minLen = tb.BV(int64(65*n), 64), tb.BV(int64(65*n), 64), 65*n
+		return s, true
+	case "Prefix":
+		return e.constBytes(e.namePrefix, true), true
+	case "Repeat":
+		return tb.BV(1, 64), true
+	case "envSame":
+		a, b := e.envOf(args[0]), e.envOf(args[1])
+		return e.sameObservations(a, b), true
 	case "Register":
 		return nil, true
 	case "ExactFromHex":
@@ -88,7 +131,7 @@ func (e *Exec) rtIntrinsic(name string, fn *ssa.Function, args []Value) (Value, 
 	case "NondetInt", "NondetIntNonNil":
 		n := str(0)
 		if name == "NondetInt" {
-			if e.choice(2, n+"_nil") == 1 {
+			if e.namedChoice(2, n+"_nil") == 1 {
 				e.addNondet(NondetRec{Name: n, Kind: "const", Const: "nil"})
 				return e.nilInt(), true
 			}
@@ -104,12 +147,12 @@ func (e *Exec) rtIntrinsic(name string, fn *ssa.Function, args []Value) (Value, 
 		if !ok || !k.isConst() {
 			e.fail("NondetChoice: n must be constant")
 		}
-		c := e.choice(int(k.i64()), n)
+		c := e.namedChoice(int(k.i64()), n)
 		e.addNondet(NondetRec{Name: n, Kind: "const", Const: fmt.Sprint(c)})
 		return tb.BV(int64(c), 64), true
 	case "NondetErr":
 		n := str(0)
-		c := e.choice(2, n)
+		c := e.namedChoice(2, n)
 		e.addNondet(NondetRec{Name: n, Kind: "const", Const: fmt.Sprint(c)})
 		if c == 1 {
 			return e.newErr("nondet:" + n), true
@@ -672,4 +715,56 @@ func (e *Exec) probeAttestation(args []Value) {
 		}
 		prevAddr = addr
 	}
+}
+
+// namedChoice is a finite nondeterministic choice identified by name: asking again under the same
+// name on the same path returns the same alternative.
+func (e *Exec) namedChoice(n int, name string) int {
+	if e.choiceMemo == nil {
+		e.choiceMemo = map[string]int{}
+	}
+	if c, ok := e.choiceMemo[name]; ok {
+		return c
+	}
+	c := e.choice(n, name)
+	e.choiceMemo[name] = c
+	return c
+}
+
+// sameObservations compares what two environments recorded since their BeginTx marks: the store
+// writes (key, value / delete, in order) and the emitted typed events.
+func (e *Exec) sameObservations(a, b *EnvState) *Term {
+	tb := e.tb
+	la, lb := a.stores[0].log[a.stores[0].txMark:], b.stores[0].log[b.stores[0].txMark:]
+	if len(la) != len(lb) || len(a.events)-a.eventMark != len(b.events)-b.eventMark {
+		return tb.ff
+	}
+	var cs []*Term
+	for i := range la {
+		cs = append(cs, e.bytesEqual(la[i].key, lb[i].key))
+		if (la[i].val == nil) != (lb[i].val == nil) {
+			return tb.ff
+		}
+		if la[i].val != nil {
+			cs = append(cs, e.bytesEqual(la[i].val, lb[i].val))
+		}
+	}
+	ea, eb := a.events[a.eventMark:], b.events[b.eventMark:]
+	for i := range ea {
+		x, y := ea[i].(*IfaceV), eb[i].(*IfaceV)
+		cs = append(cs, e.keyEqIfaceDeep(x, y))
+	}
+	return tb.And(cs...)
+}
+
+func (e *Exec) keyEqIfaceDeep(x, y *IfaceV) *Term {
+	if x.t == nil || y.t == nil {
+		return e.tb.Bool(x.t == nil && y.t == nil)
+	}
+	px, ok1 := x.v.(*PtrV)
+	py, ok2 := y.v.(*PtrV)
+	if ok1 && ok2 && px.c != nil && py.c != nil {
+		return e.valEq(px.c.v, py.c.v)
+	}
+	return e.keyEqIface(x, y)
 }
